@@ -18,6 +18,7 @@ INDENTS = ['\t', '  ', 'xy ']
 def _chunk(items):
     import emmet
     bad = []
+    shared = {}          # syntax -> the caller's configuration dict, used again and again; its options are changed in place
     for v, rows in items:
         for si, indent in rows:
             blk = v['lines'][si]
@@ -33,7 +34,15 @@ def _chunk(items):
                 case['tagCase'] = 'upper'
             try:
                 with common.Alarm(10):
-                    text = emmet.expand(v['abbr'], {'syntax': syn, 'options': opts})
+                    cfg = shared.setdefault(syn, {'syntax': syn, 'options': {}})
+                    if zlib.crc32(v['abbr'].encode()) % 2 == 0:
+                        # the call before this one used the same dict with another indentation (changed in place afterwards)
+                        cfg['options'].clear()
+                        cfg['options'].update({'output.indent': '@@@', 'output.tagCase': 'upper'})
+                        emmet.expand(v['abbr'], cfg)
+                    cfg['options'].clear()
+                    cfg['options'].update(opts)
+                    text = emmet.expand(v['abbr'], cfg)
                     if upper:
                         text = text.lower()
                     html = emmet.expand(v['abbr'], {'options': {'output.format': False}})
